@@ -46,7 +46,11 @@ MUT = [
  ("c13-uncle-number-le", "tx-pool/src/block_assembler/candidate_uncles.rs", "                && uncle.number() < candidate_number", "                && uncle.number() <= candidate_number", "C13", "m3"),
  ("c13-uncle-parent-check-dropped", "tx-pool/src/block_assembler/candidate_uncles.rs", "                    || snapshot.is_main_chain(&parent_hash)\n                    || snapshot.is_uncle(&parent_hash))", "                    || snapshot.is_main_chain(&parent_hash)\n                    || !snapshot.is_uncle(&parent_hash))", "C13", "m3"),
  ("c18-rollback-keeps-tx-type-rows", "util/indexer/src/indexer.rs", "                                    CellType::Output,\n                                )\n                                .into_vec(),\n                            )?;\n                        };\n                        batch.delete(out_point_key)?;", "                                    CellType::Input,\n                                )\n                                .into_vec(),\n                            )?;\n                        };\n                        batch.delete(out_point_key)?;", "C18", "m1"),
- ("c18-append-live-cell-wrong-tx-index", "util/indexer/src/indexer.rs", "                    Value::Cell(block_number, tx_index, &output, &output_data),", "                    Value::Cell(block_number, output_index, &output, &output_data),", "C18", "m1")
+ ("c18-append-live-cell-wrong-tx-index", "util/indexer/src/indexer.rs", "                    Value::Cell(block_number, tx_index, &output, &output_data),", "                    Value::Cell(block_number, output_index, &output, &output_data),", "C18", "m1"),
+ ("c17-orphan-no-leader-dedupe", "chain/src/utils/orphan_block_pool.rs", "        self.leaders.remove(&hash);\n", "", "C17", "m8"),
+ ("c17-orphan-leader-always", "chain/src/utils/orphan_block_pool.rs", "        if !self.parents.contains_key(&parent_hash) {", "        if !self.parents.contains_key(&hash) {", "C17", "m8"),
+ ("c17-orphan-release-children-only", "chain/src/utils/orphan_block_pool.rs", "                queue.extend(hashes);\n", "                let _ = &hashes;\n", "C17", "m8"),
+ ("c17-orphan-parents-not-cleared", "chain/src/utils/orphan_block_pool.rs", "                for hash in hashes.iter() {\n                    self.parents.remove(hash);\n                }", "                for hash in hashes.iter().skip(1) {\n                    self.parents.remove(hash);\n                }", "C17", "m8")
 ]
 sel = set(sys.argv[1:])
 for name, path, old, new, pid, only in MUT:
